@@ -981,6 +981,8 @@ theorem good_facCreatePair {w w' : World} {sender : Nat} {a0 a1 : Asset} {req : 
   obtain ⟨d0, _, d1, _, h⟩ := h
   split at h
   · cases h
+  split at h
+  · cases h
   injection h with h
   subst h
   exact good_create hfresh (T := { bal := fun _ => 0, allow := fun _ _ => none, supply := 0, minter := some np, decimals := 6 })
@@ -995,8 +997,8 @@ theorem good_facExec {w w' : World} {s : Nat} {funds : List (Nat × Nat)} {m : F
   have t0 := (attach_same h0).2
   refine (good_attach h0).trans ?_
   cases m with
-  | updateConfig o =>
-    have h : facUpdateConfig w0 s o = .ok w' := h
+  | updateConfig o tc pc =>
+    have h : facUpdateConfig w0 s o tc pc = .ok w' := h
     unfold facUpdateConfig at h
     split at h
     · cases h
@@ -1006,9 +1008,11 @@ theorem good_facExec {w w' : World} {s : Nat} {funds : List (Nat × Nat)} {m : F
   | createPair a0 a1 req comm np nl =>
     exact good_facCreatePair (by rw [t0]; exact hfresh _ _ _ _ _ _ rfl) h
   | addDecimals d k => exact good_of_tok (facAddDecimals_tok h)
-  | migratePair p =>
-    have h : facMigratePair w0 s p = .ok w' := h
+  | migratePair p c =>
+    have h : facMigratePair w0 s p c = .ok w' := h
     unfold facMigratePair at h
+    split at h
+    · cases h
     split at h
     · cases h
     split at h
